@@ -9,7 +9,13 @@ state = (total, current bucket, sorted per-key records (tracked?, count, entry b
 to the total, so `total mod w` is part of the key.  Sorting the records is sound because the class looks at keys only
 through hashing/equality and the statement constrains no ordering other than most_common's, which is checked on
 every transition *before* states are merged.  Some configurations add a menu of update() calls (iterable: list,
-tuple, generator, str; mapping: dict, Counter, mappingproxy, UserDict; keyword counts next to an iterable/mapping).
+tuple, generator, str; mapping: dict, Counter, mappingproxy, UserDict; keyword counts next to an iterable/mapping;
+the counter's own lazy views elements() / iterkeys() as the iterable of keys - the additions are then whatever the
+view yields, recorded while update() consumes it).
+Key types: most configurations use 1-character strings; 'mixed:<r>' configurations draw the keys from a fixed list
+of pairwise unequal hashable objects of different, mutually unorderable types (None, int, str, complex, tuples
+holding None, float, bytes, frozenset), rotated by r.  Histories, true counts and reported cases stay in terms of key
+*names*; names are translated to the objects at the call boundary and back in everything the object returns.
 
 Search B (size bound).  The tracked set's future depends only on (total mod w, multiset of slack = count + entry -
 current bucket); BFS over that abstraction (read off the real object's internals), unlimited fresh keys, the real
@@ -17,6 +23,8 @@ object being driven by a representative stream for each abstract state.  All ora
 
 Oracles after every operation (state oracle; a failing transition is not expanded):
     the call returns, total == number of additions                       C20|op:<op shape>|raised / total
+        (op shapes: add, update(iterable), update(mapping), update(iterable,**counts), update(mapping,**counts),
+        update(own-lazy-view))
     for every key of the stream (and one never-added key), reported = tc[k] if k in tc else 0:
     reported <= true, true - reported <= floor(total / floor(1/threshold))
                                        C20|invariant:over-count / under-count>slack / frequent-key-absent
@@ -45,6 +53,10 @@ NEVER = 'never_added'
 STEP_CPU_S = 10.0
 SIZE_SIG = 'C20|invariant:size<=2/threshold'
 SIZE_TAG = 'textbook_lossy_counting_also_exceeds'
+# pairwise unequal hashable keys; neighbours are not orderable against each other (TypeError on <)
+MIXED = (None, 404, 'timeout', 1j, ('GET', None), 2j, ('GET', 200), 2.5, b'x', frozenset((1,)))
+MIXED_NEVER = ('never_added', None)
+VIEW_OPS = ('ve', 'vk')
 
 
 def key_name(i):
@@ -106,29 +118,32 @@ class Model:
     def __init__(self):
         self.true = {}
         self.adds = 0
+        self.stream = []
 
     def copy(self):
         m = Model()
-        m.true, m.adds = dict(self.true), self.adds
+        m.true, m.adds, m.stream = dict(self.true), self.adds, list(self.stream)
         return m
 
-    def apply(self, op):
-        for k, n in additions(op):
+    def apply(self, op, fed=None):
+        """fed: the (key, 1) additions a view operation was seen to feed (recorded while update() consumed the view)."""
+        for k, n in (additions(op) if fed is None else fed):
             self.true[k] = self.true.get(k, 0) + n
             self.adds += n
+            self.stream.append((k, n))
 
 
-def textbook_size(ws, ops):
-    """Largest number of entries the published algorithm holds after the additions of `ops`, over the widths ws."""
+def textbook_size(ws, stream):
+    """Largest number of entries the published algorithm holds after the (key, n) additions of `stream`, over the
+    widths ws."""
     best = 0
     for w in sorted(set(ws)):
         if w < 1:
             continue
         ref = Lossy(w)
-        for op in ops:
-            for k, n in additions(op):
-                for _ in range(n):
-                    ref.add(k)
+        for k, n in stream:
+            for _ in range(n):
+                ref.add(k)
         best = max(best, len(ref.d))
     return best
 
@@ -146,15 +161,19 @@ def additions(op):
         return [(k, 1) for k in op[1]] + [(k, n) for k, n in op[2]]
     if kind == 'mkw':
         return [(k, n) for k, n in op[1]] + [(k, n) for k, n in op[2]]
+    if kind in VIEW_OPS:
+        raise AssertionError('the additions of a view operation are only known by executing it: %r' % (op,))
     raise AssertionError(op)
 
 
 _SHAPE = {'ul': 'update(iterable)', 'ut': 'update(iterable)', 'ug': 'update(iterable)', 'us': 'update(iterable)',
           'md': 'update(mapping)', 'mc': 'update(mapping)', 'mp': 'update(mapping)', 'mu': 'update(mapping)',
-          'kw': 'update(iterable,**counts)', 'mkw': 'update(mapping,**counts)'}
+          'kw': 'update(iterable,**counts)', 'mkw': 'update(mapping,**counts)',
+          've': 'update(own-lazy-view)', 'vk': 'update(own-lazy-view)'}
 _LABEL = {'ul': 'update(list)', 'ut': 'update(tuple)', 'ug': 'update(generator)', 'us': 'update(str)',
           'md': 'update(dict)', 'mc': 'update(Counter)', 'mp': 'update(mappingproxy)', 'mu': 'update(UserDict)',
-          'kw': 'update(list,**counts)', 'mkw': 'update(dict,**counts)'}
+          'kw': 'update(list,**counts)', 'mkw': 'update(dict,**counts)',
+          've': 'update(self.elements())', 'vk': 'update(self.iterkeys())'}
 
 
 def opsig(op):
@@ -168,57 +187,81 @@ def oplabel(op):
 # ----------------------------------------------------------------------------------------------------
 # implementation side
 
-def impl_apply(tc, op):
+def _same(k):
+    return k
+
+
+def recording(view, fed, dec):
+    """The keys of `view`, each noted (as a name) in `fed` when it is handed to the consumer."""
+    for k in view:
+        fed.append((dec(k), 1))
+        yield k
+
+
+def impl_apply(tc, op, enc=_same, dec=_same):
+    """Execute op -> (status, exception name or None, fed); fed is None unless op is a view operation, then the
+    additions the view was seen to yield."""
+    fed = None
     try:
         if isinstance(op, str):
-            tc.add(op)
-            return ('ok', None)
+            tc.add(enc(op))
+            return ('ok', None, fed)
         kind = op[0]
+        if kind in VIEW_OPS:
+            fed = []
+            view = tc.elements() if kind == 've' else tc.iterkeys()
+            tc.update(recording(view, fed, dec))
+            return ('ok', None, fed)
+        keys = pairs = None
+        if kind[0] == 'm':
+            pairs = [(enc(k), n) for k, n in op[1]]
+        else:
+            keys = [enc(k) for k in op[1]]
         if kind == 'ul':
-            tc.update(list(op[1]))
+            tc.update(list(keys))
         elif kind == 'ut':
-            tc.update(tuple(op[1]))
+            tc.update(tuple(keys))
         elif kind == 'ug':
-            tc.update(k for k in op[1])
+            tc.update(k for k in keys)
         elif kind == 'us':
-            tc.update(''.join(op[1]))
+            tc.update(''.join(keys))
         elif kind == 'md':
-            tc.update(dict(op[1]))
+            tc.update(dict(pairs))
         elif kind == 'mc':
-            tc.update(collections.Counter(dict(op[1])))
+            tc.update(collections.Counter(dict(pairs)))
         elif kind == 'mp':
-            tc.update(types.MappingProxyType(dict(op[1])))
+            tc.update(types.MappingProxyType(dict(pairs)))
         elif kind == 'mu':
-            tc.update(collections.UserDict(dict(op[1])))
+            tc.update(collections.UserDict(dict(pairs)))
         elif kind == 'kw':
-            tc.update(list(op[1]), **dict(op[2]))
+            tc.update(list(keys), **{enc(k): n for k, n in op[2]})
         elif kind == 'mkw':
-            tc.update(dict(op[1]), **dict(op[2]))
+            tc.update(dict(pairs), **{enc(k): n for k, n in op[2]})
         else:
             raise AssertionError(op)
-        return ('ok', None)
+        return ('ok', None, fed)
     except AssertionError:
         raise
     except Exception as e:
-        return ('exc', type(e).__name__)
+        return ('exc', type(e).__name__, fed)
 
 
-def internals(tc):
-    """(total, current bucket, bucket width, {key: (count, entry)}) read off the object, or None when the object does
-    not have the anchored layout (then canonical keys fall back to the public view)."""
+def internals(tc, dec=_same):
+    """(total, current bucket, bucket width, {key name: (count, entry)}) read off the object, or None when the object
+    does not have the anchored layout (then canonical keys fall back to the public view)."""
     try:
         cm = tc._count_map
         return (int(tc.total), int(tc._cur_bucket), int(tc._thresh_count),
-                {k: (int(v[0]), int(v[1])) for k, v in cm.items()})
+                {dec(k): (int(v[0]), int(v[1])) for k, v in cm.items()})
     except Exception:
         return None
 
 
-def public_view(tc, universe):
+def public_view(tc, universe, enc=_same):
     out = []
     for k in universe:
         try:
-            out.append((k, tc[k]) if k in tc else (k, None))
+            out.append((k, tc[enc(k)]) if enc(k) in tc else (k, None))
         except Exception as e:
             out.append((k, 'raised ' + type(e).__name__))
     return out
@@ -235,13 +278,13 @@ def guarded(fn, limit=None):
         return 'raised ' + type(e).__name__
 
 
-def check_most_common(got, n, per):
-    """None, or what is wrong with most_common's result (n None = omitted)."""
+def check_most_common(got, n, per, dec=_same):
+    """None, or what is wrong with most_common's result (n None = omitted); per is keyed by key names."""
     if not isinstance(got, list):
         return 'raised', got
     want_len = len(per) if n is None else min(n, len(per))
     try:
-        pairs = [(k, c) for k, c in got]
+        pairs = [(dec(k), c) for k, c in got]
     except Exception:
         return 'not-pairs', got
     if len(pairs) != want_len:
@@ -263,17 +306,51 @@ def check_most_common(got, n, per):
 # ----------------------------------------------------------------------------------------------------
 
 class Spec:
-    def __init__(self, threshold, mode, nkeys=None, updates=False, depth=None):
+    def __init__(self, threshold, mode, nkeys=None, updates=False, depth=None, key_types='str'):
         self.threshold, self.mode, self.nkeys, self.updates, self.depth = threshold, mode, nkeys, updates, depth
+        self.key_types = key_types
         self.wf, self.we = widths(threshold)
         self.w_slack = min(self.wf, self.we)     # the more permissive reading where the two differ
-        self.config = {'threshold': threshold, 'search': mode, 'keys': nkeys, 'updates': bool(updates),
+        self.config = {'threshold': threshold, 'search': mode, 'keys': nkeys,
+                       'updates': updates if updates == 'views' else bool(updates),
                        'max_ops': depth, 'w=floor(1/threshold)': self.wf, 'w(exact rational)': self.we,
-                       '2/threshold': 2 / threshold}
+                       '2/threshold': 2 / threshold, 'key_types': key_types}
+        if key_types == 'str':
+            self.enc = self.dec = _same
+        else:
+            kind, rot = key_types.split(':')
+            assert kind == 'mixed' and mode == 'accuracy' and nkeys <= len(MIXED), (key_types, mode, nkeys)
+            objs = [MIXED[(i + int(rot)) % len(MIXED)] for i in range(nkeys)]
+            self._enc = {key_name(i): o for i, o in enumerate(objs)}
+            self._enc[NEVER] = MIXED_NEVER
+            self._dec = {o: name for name, o in self._enc.items()}
+            self.enc, self.dec = self._enc.__getitem__, self._decode
+            self.config['key_objects'] = {name: repr(o) for name, o in self._enc.items()}
+
+    def _decode(self, obj):
+        """Name of a key object the counter handed back (a string that is no name for anything else)."""
+        try:
+            return self._dec[obj]
+        except Exception:
+            return 'unknown:%r' % (obj,)
+
+    def names(self, keys):
+        """A list the counter returned, element-wise as key names (None when it cannot be walked)."""
+        try:
+            return [self.dec(k) for k in keys]
+        except Exception:
+            return None
+
+    def named_pairs(self, pairs):
+        try:
+            return [(self.dec(k), c) for k, c in pairs]
+        except Exception:
+            return None
 
     @classmethod
     def from_config(cls, cfg):
-        return cls(cfg['threshold'], cfg['search'], cfg.get('keys'), cfg.get('updates', False), cfg.get('max_ops'))
+        return cls(cfg['threshold'], cfg['search'], cfg.get('keys'), cfg.get('updates', False), cfg.get('max_ops'),
+                   cfg.get('key_types', 'str'))
 
     def new(self):
         from boltons.cacheutils import ThresholdCounter
@@ -286,14 +363,16 @@ class Spec:
         """Replay a history whose every prefix passed the state oracle on a fresh real object."""
         tc = self.new()
         for op in hist:
-            impl_apply(tc, op)
+            impl_apply(tc, op, self.enc, self.dec)
         return tc
 
     def build(self, hist):
-        model = Model()
+        """The real object and the true counts after hist, in lockstep (a view operation adds what it was seen to feed)."""
+        tc, model = self.new(), Model()
         for op in hist:
-            model.apply(op)
-        return self.build_impl(hist), model
+            r = impl_apply(tc, op, self.enc, self.dec)
+            model.apply(op, r[2])
+        return tc, model
 
     def root_key(self, hist):
         return self.canon(*self.build(hist))
@@ -303,9 +382,10 @@ class Spec:
 
     # -- canonical keys ------------------------------------------------------------------------------
     def canon(self, tc, model):
-        st = internals(tc)
+        st = internals(tc, self.dec)
         if st is None:
-            view = sorted((c is not None, repr(c), model.true.get(k, 0)) for k, c in public_view(tc, model.true))
+            view = sorted((c is not None, repr(c), model.true.get(k, 0))
+                          for k, c in public_view(tc, model.true, self.enc))
             return 'P|%d|%s' % (model.adds, ';'.join('%d.%s.%d' % r for r in view))
         total, cur, w, cm = st
         if self.mode == 'size':
@@ -323,7 +403,7 @@ class Spec:
 
     # -- menus ----------------------------------------------------------------------------------------
     def menu(self, tc, model):
-        st = internals(tc)
+        st = internals(tc, self.dec)
         used = list(model.true)
         m = len(used)
         ops = []
@@ -336,7 +416,7 @@ class Spec:
                         seen.add(c + e - cur)
                         ops.append(k)
             else:
-                ops += [k for k in used if guarded(lambda: k in tc) is True]
+                ops += [k for k in used if guarded(lambda: self.enc(k) in tc) is True]
             ops.append(key_name(m))
             return ops
         if st is not None:
@@ -355,17 +435,22 @@ class Spec:
         return ops
 
     def update_menu(self, used):
+        if self.updates == 'views':                      # the counter's own lazy views as the iterable of keys
+            return [('ve',), ('vk',)]
         m = len(used)
         if m == 0:
             x, y = key_name(0), key_name(1)
         else:
             x = used[0]
             y = key_name(m) if m < self.nkeys else used[-1]
-        return [('ul', (x,)), ('ul', (y, x, y)), ('ut', (x, y)), ('ug', (y, y, x)), ('us', (x, y, x)),
-                ('md', ((x, 2),)), ('md', ((y, 1), (x, 3))), ('md', ((x, 0), (y, 2))),
-                ('mc', ((x, 2), (y, 1))), ('mp', ((y, 2),)), ('mu', ((x, 1), (y, 2))),
-                ('kw', (), ((x, 2),)), ('kw', (x,), ((y, 1), (x, 1))), ('mkw', ((x, 1),), ((y, 2),)),
-                ('mkw', ((x, 3), (y, 1)), ((x, 2),))]     # the same key in the mapping and in the keyword counts
+        ops = [('ul', (x,)), ('ul', (y, x, y)), ('ut', (x, y)), ('ug', (y, y, x)), ('us', (x, y, x)),
+               ('md', ((x, 2),)), ('md', ((y, 1), (x, 3))), ('md', ((x, 0), (y, 2))),
+               ('mc', ((x, 2), (y, 1))), ('mp', ((y, 2),)), ('mu', ((x, 1), (y, 2))),
+               ('kw', (), ((x, 2),)), ('kw', (x,), ((y, 1), (x, 1))), ('mkw', ((x, 1),), ((y, 2),)),
+               ('mkw', ((x, 3), (y, 1)), ((x, 2),))]     # the same key in the mapping and in the keyword counts
+        if self.key_types != 'str':                      # str arguments and keyword names need string keys
+            ops = [o for o in ops if o[0] not in ('us', 'kw', 'mkw')]
+        return ops
 
     # -- exploration ------------------------------------------------------------------------------------
     def expand(self, hist):
@@ -410,8 +495,8 @@ class Spec:
                 sig = what
             V.append((sig, case, exp, core.jsonable(obs), detail, tuple(tags)))
 
-        r = impl_apply(tc, op)
-        model.apply(op)
+        r = impl_apply(tc, op, self.enc, self.dec)
+        model.apply(op, r[2])
         label = (oplabel(op), 'ok' if r[0] == 'ok' else r[1])
         if r[0] != 'ok':
             bad('op', 'raised', 'returns', r[1])
@@ -425,11 +510,11 @@ class Spec:
         per = {}
         for k in list(model.true) + [NEVER]:
             t = model.true.get(k, 0)
-            present = guarded(lambda: k in tc)
+            present = guarded(lambda: self.enc(k) in tc)
             if present not in (True, False):
                 bad('op', 'contains-raised', 'True/False', present)
                 return V, False, label
-            c = guarded(lambda: tc[k]) if present else 0
+            c = guarded(lambda: tc[self.enc(k)]) if present else 0
             if type(c) is not int:
                 bad('op', 'per-key-count-not-an-int', 'an int', c)
                 return V, False, label
@@ -448,7 +533,7 @@ class Spec:
             return V, False, label
         n = guarded(lambda: len(tc))
         if type(n) is int and exceeds_bound(n, self.threshold):
-            ref = textbook_size((self.wf, self.we), tuple(hist) + (op,))
+            ref = textbook_size((self.wf, self.we), model.stream)
             tags = (SIZE_TAG,) if (exceeds_bound(ref, self.threshold) and n <= ref) else ()
             bad('invariant', SIZE_SIG, 'len <= 2/threshold = %r' % (2 / self.threshold), n, tags=tags,
                 detail={'threshold': self.threshold, 'w': self.wf, 'additions': model.adds,
@@ -463,7 +548,7 @@ class Spec:
             bad('read', 'len|number-of-present-keys', len(per), n)
         for k in list(model.true) + [NEVER]:
             t = model.true.get(k, 0)
-            g = guarded(lambda: tc.get(k))
+            g = guarded(lambda: tc.get(self.enc(k)))
             if type(g) is not int:
                 bad('read', 'get|result', 'an int', g)
             elif g > t:
@@ -473,20 +558,20 @@ class Spec:
         lim = len(per) + len(model.true) + 2
         want_items = sorted(per.items())
         got = guarded(lambda: tc.items(), lim)
-        if not (isinstance(got, list) and _sorted(_pairs(got)) == want_items):
+        if not (isinstance(got, list) and _sorted(self.named_pairs(got)) == want_items):
             bad('read', 'items|disagrees-with-per-key-counts', want_items, got)
         got = guarded(lambda: tc.keys(), lim)
-        if not (isinstance(got, list) and _sorted(got) == sorted(per)):
+        if not (isinstance(got, list) and _sorted(self.names(got)) == sorted(per)):
             bad('read', 'keys|disagrees-with-per-key-counts', sorted(per), got)
         got = guarded(lambda: tc.values(), lim)
         if not (isinstance(got, list) and _sorted(got) == sorted(per.values())):
             bad('read', 'values|disagrees-with-per-key-counts', sorted(per.values()), got)
         got = guarded(lambda: tc.elements(), adds + 1)
         want = sorted(k for k, c in per.items() for _ in range(c))
-        if not (isinstance(got, list) and _sorted(got) == want):
+        if not (isinstance(got, list) and _sorted(self.names(got)) == want):
             bad('read', 'elements|disagrees-with-per-key-counts', want, got)
         got = guarded(lambda: tc.most_common(), lim)
-        bad_mc = check_most_common(got, None, per)
+        bad_mc = check_most_common(got, None, per, self.dec)
         if bad_mc:
             bad('read', 'most_common()|' + bad_mc[0], 'all %d pairs, descending count' % len(per), bad_mc[1])
         L = len(per)
@@ -494,7 +579,7 @@ class Spec:
             if nn < 1:
                 continue
             got = guarded(lambda: tc.most_common(nn), lim)
-            bad_mc = check_most_common(got, nn, per)
+            bad_mc = check_most_common(got, nn, per, self.dec)
             if bad_mc:
                 bad('read', 'most_common(%s)|%s' % ('n<len' if nn < L else 'n>=len', bad_mc[0]),
                     'top %d pairs of %r, descending count' % (nn, want_items), bad_mc[1])
@@ -503,13 +588,6 @@ class Spec:
             bad('read', 'get_common_count+get_uncommon_count|!=total', adds, [cc, uc])
         elif cc != sum(per.values()):
             bad('read', 'get_common_count|!=sum-of-tracked-counts', sum(per.values()), cc)
-
-
-def _pairs(x):
-    try:
-        return [tuple(p) for p in x]
-    except Exception:
-        return None
 
 
 def _sorted(x):
@@ -539,7 +617,8 @@ class Tap:
 
 
 def configs(tier):
-    """(threshold, search, keys, update menu?, max ops)."""
+    """(threshold, search, keys, update menu? (True: the list in update_menu, 'views': update(own lazy view)), max ops
+    [, key types])."""
     A, B = 'accuracy', 'size'
     third, sixth, seventh = 1 / 3, 1 / 6, 1 / 7
     if tier == 'quick':
@@ -550,6 +629,9 @@ def configs(tier):
             (0.25, A, 4, False, 16), (0.25, A, 3, False, 24), (0.21, A, 5, False, 12), (0.25, A, 3, True, 7),
             (0.19, A, 3, False, 30), (0.19, A, 4, False, 18), (0.17, A, 5, False, 15), (0.19, A, 3, True, 7),
             (0.1, A, 4, False, 8), (0.001, A, 4, True, 4),
+            (0.34, A, 4, False, 8, 'mixed:0'), (0.25, A, 5, False, 9, 'mixed:3'), (0.25, A, 3, True, 5, 'mixed:6'),
+            (0.5, A, 3, 'views', 9), (0.3, A, 4, 'views', 8), (0.25, A, 3, 'views', 9), (0.19, A, 4, 'views', 8),
+            (0.1, A, 5, 'views', 8), (0.25, A, 4, 'views', 7, 'mixed:6'),
             (0.5, B, None, False, 32), (third, B, None, False, 30), (0.25, B, None, False, 30),
             (0.19, B, None, False, 30), (sixth, B, None, False, 36),
         ]
@@ -561,6 +643,11 @@ def configs(tier):
         (0.19, A, 3, False, 32), (0.19, A, 4, False, 22), (0.17, A, 5, False, 19), (0.2, A, 4, False, 20),
         (0.19, A, 3, True, 8),
         (0.1, A, 4, False, 12), (0.1, A, 3, True, 5), (0.001, A, 4, False, 9), (0.001, A, 3, True, 4),
+        (0.34, A, 5, False, 10, 'mixed:0'), (0.25, A, 5, False, 12, 'mixed:3'), (0.19, A, 6, False, 10, 'mixed:5'),
+        (0.25, A, 3, True, 6, 'mixed:6'), (0.5, A, 3, True, 5, 'mixed:8'),
+        (0.5, A, 3, 'views', 11), (0.34, A, 4, 'views', 10), (0.3, A, 4, 'views', 10), (0.25, A, 3, 'views', 11),
+        (0.25, A, 4, 'views', 10), (0.19, A, 4, 'views', 10), (0.1, A, 5, 'views', 10), (0.001, A, 4, 'views', 9),
+        (0.25, A, 4, 'views', 8, 'mixed:6'),
         (0.5, B, None, False, 40), (0.34, B, None, False, 40), (third, B, None, False, 40), (0.3, B, None, False, 40),
         (0.25, B, None, False, 40), (0.21, B, None, False, 40), (0.19, B, None, False, 40), (0.17, B, None, False, 36),
         (sixth, B, None, False, 38), (0.15, B, None, False, 36), (seventh, B, None, False, 42),
@@ -571,13 +658,14 @@ def configs(tier):
 def run(ctx):
     parts = []
     size_rows = []
-    for thr, mode, nkeys, upd, depth in configs(ctx.tier):
-        spec = Spec(thr, mode, nkeys, upd, depth)
+    for thr, mode, nkeys, upd, depth, *rest in configs(ctx.tier):
+        spec = Spec(thr, mode, nkeys, upd, depth, *rest)
         tap = Tap(ctx)
         res = histories.explore(spec, tap, max_depth=depth, chunk=48)
         parts.append((spec.config, res))
-        ctx.note('threshold=%.4g w=%d search=%s keys=%s updates=%s: states=%d transitions=%d ops<=%d%s%s'
-                 % (thr, spec.wf, mode, nkeys, upd, res.states, res.transitions, res.depth,
+        ctx.note('threshold=%.4g w=%d search=%s keys=%s%s updates=%s: states=%d transitions=%d ops<=%d%s%s'
+                 % (thr, spec.wf, mode, nkeys, '' if spec.key_types == 'str' else ' (%s)' % spec.key_types, upd,
+                    res.states, res.transitions, res.depth,
                     ' CAPPED: ' + res.capped if res.capped and not res.capped.startswith('depth') else '',
                     ' size>2/threshold on %d transitions, shortest stream %d' % (tap.size_occ, len(tap.witness[0]))
                     if tap.witness else ''))
@@ -592,13 +680,21 @@ def run(ctx):
     cov = histories.merge_coverage(ctx, parts, rule=(
         'BFS over add/update histories on the real ThresholdCounter, one search per listed configuration, each complete '
         'up to its max_ops.  accuracy: <= keys interchangeable keys (restricted growth; one representative per '
-        'identical record), state = total, bucket, sorted (tracked, count, entry, true count) records.  size: unlimited '
+        'identical record), state = total, bucket, sorted (tracked, count, entry, true count) records; updates=True adds '
+        'the update() argument shapes of update_menu, updates=views adds update(self.elements()) / '
+        'update(self.iterkeys()) (additions = the keys the view is seen to yield); key_types mixed:<r> uses keys of '
+        'mutually unorderable types.  size: unlimited '
         'fresh keys, state = (total mod w, multiset of count + entry - bucket) read off the real object.'))
     cov['exhaustive'] = all(r.capped is None or r.capped.startswith('depth') for _, r in parts)
     cov['size_bound_searches'] = size_rows
     ctx.assumptions += [
-        'keys are 1-character strings with well-behaved __eq__/__hash__; the class looks at keys only through '
-        'hashing/equality, so key names and dict order do not influence counts (symmetry reduction)',
+        'keys are 1-character strings or (key_types mixed:<r>) the objects %r rotated by r - pairwise unequal, '
+        'well-behaved __eq__/__hash__, not orderable against each other; the class may look at keys only through '
+        'hashing/equality, so key names and dict order do not influence counts (symmetry reduction)' % (MIXED,),
+        'update(self.elements()) / update(self.iterkeys()): the counter\'s own lazy view is an iterable of keys like any '
+        'other; the additions are the keys the view is seen to yield while update() consumes it (nothing is demanded '
+        'about *which* keys a view yields while the counter changes), and like for every other iterable the call must '
+        'return and total / per-key bounds must hold for the keys fed',
         'floor(1/threshold): where float and exact-rational evaluation differ (0.2, 0.1, 0.001) the smaller width, i.e. '
         'the larger slack, is allowed; a size is a violation only if it exceeds 2/threshold under both evaluations',
         'update(mapping) / keyword counts stand for count additions of each key (order immaterial to the oracle); keyword '
